@@ -248,8 +248,17 @@ func (e *explorer) run(maxStates int64, par int) *result {
 							seen := seenBuf[:0]
 							want, minTrials := 1, 0
 							for trial := 0; (trial < 64*want && len(seen) < want) || trial < minTrials; trial++ {
-								w2 := fs.w
-								nd, outc, _ := x.apply(&w2, o, false)
+								// the candidate is built in place in the next slot of the (recycled) buffer
+								if len(seen) < cap(seen) {
+									seen = seen[:len(seen)+1]
+								} else {
+									seen = append(seen, cand{})
+								}
+								cd := &seen[len(seen)-1]
+								cd.w = fs.w
+								cd.v = nil
+								nd, outc, _ := x.apply(&cd.w, o, false)
+								cd.out = outc
 								if trial == 0 {
 									want = nd
 									if want > 1 || (o.K == opWsPick && !c.Seq) {
@@ -262,27 +271,26 @@ func (e *explorer) run(maxStates int64, par int) *result {
 										}
 									}
 								}
-								if trial < 64*want && len(seen) < want {
+								if trial < 64*want && len(seen)-1 < want {
 									trans[wk]++
 								} else {
 									x.calib++
 									x.st.ops[o.K]--
 								}
 								dup := false
-								for k := range seen {
-									if seen[k].w == w2 && seen[k].out == outc {
+								for k := 0; k < len(seen)-1; k++ {
+									if seen[k].out == outc && seen[k].w == cd.w {
 										dup = true
 										break
 									}
 								}
 								if dup {
+									seen = seen[:len(seen)-1]
 									continue
 								}
-								cd := cand{w: w2, out: outc}
 								if len(x.viols) > 0 {
 									cd.v = append([]violation{}, x.viols...)
 								}
-								seen = append(seen, cd)
 							}
 							seenBuf = seen
 							if len(seen) < want {
@@ -419,67 +427,128 @@ func (e *explorer) report(v violation, parent int32, o op, res *result) {
 
 // ---- configurations
 
-func classes(n int) [][]bool {
-	var out [][]bool
-	for f := 0; f <= n; f++ { // f fast peers, slots ordered fast-first (slots of one class are symmetric)
-		cl := make([]bool, n)
-		for k := 0; k < f; k++ {
-			cl[k] = true
-		}
-		out = append(out, cl)
-	}
-	return out
-}
-
+// buildConfigs lists the configurations of a tier with their state caps. A cap is a fixed number of states
+// (never wall time), so the same tier always explores the same set. "fix" in the comments = the search is
+// known to reach its fixpoint below the cap on the unchanged tree.
 func buildConfigs(thorough bool) []*config {
 	var cs []*config
-	maxP, piecesSet := 2, []int{3}
-	if thorough {
-		maxP, piecesSet = 3, []int{3, 4}
+	N, F := false, true
+	type wsCombo struct{ ns, wsMax int }
+	add := func(fast []bool, files [2]int64, w wsCombo, seq bool, md int, cap int64) {
+		n := int((files[0] + files[1] + pieceLen - 1) / pieceLen)
+		cs = append(cs, &config{Fast: fast, NPieces: n, Files: files, NSrc: w.ns, Seq: seq, MaxDup: md, WsMax: w.wsMax, Cap: cap})
 	}
-	layouts := map[int][][2]int64{
-		3: {{40, 8}, {24, 24}}, // [head|mid|tail+file b]  and  [head|tail+head|tail] (all edges)
-		4: {{56, 8}, {24, 40}}, // [head|mid|mid|tail+b]   and  [head|tail+head|mid|tail]
+	l3a, l3b := [2]int64{40, 8}, [2]int64{24, 24} // [head|mid|tail+file b]  and  [head|tail+head|tail] (all edges)
+	l4a, l4b := [2]int64{56, 8}, [2]int64{24, 40} // [head|mid|mid|tail+b]   and  [head|tail+head|mid|tail]
+	modes := func(la, lb [2]int64, both bool) (out []struct {
+		seq bool
+		l   [2]int64
+	}) {
+		out = append(out, struct {
+			seq bool
+			l   [2]int64
+		}{false, la}, struct {
+			seq bool
+			l   [2]int64
+		}{true, la}) // the file layout is invisible to the rarest-first picker
+		if both {
+			out = append(out, struct {
+				seq bool
+				l   [2]int64
+			}{true, lb})
+		}
+		return
 	}
-	for np := 1; np <= maxP; np++ {
-		for _, cl := range classes(np) {
-			for _, n := range piecesSet {
-				for ns := 0; ns <= 2; ns++ {
-					for _, seq := range []bool{false, true} {
-						ls := layouts[n]
-						if !seq {
-							ls = ls[:1] // file layout is invisible to the rarest-first picker
+	if !thorough {
+		ws3 := []wsCombo{{0, 0}, {1, 0}, {1, 3}, {2, 0}, {2, 3}}
+		// one peer (the end-game limit is irrelevant): fix
+		for _, cl := range [][]bool{{N}, {F}} {
+			for _, w := range ws3 {
+				for _, m := range modes(l3a, l3b, false) {
+					add(cl, m.l, w, m.seq, 2, 1_500_000)
+				}
+			}
+			// sequential order needs >= 2 interior pieces to be non-trivial: a 4-piece family
+			for _, w := range []wsCombo{{0, 0}, {1, 2}} {
+				add(cl, l4a, w, true, 2, 1_500_000)
+			}
+		}
+		// two non-fast peers, no web seed: fix (1.6 M states each)
+		for _, m := range modes(l3a, l3b, false) {
+			for md := 1; md <= 2; md++ {
+				add([]bool{N, N}, m.l, wsCombo{0, 0}, m.seq, md, 2_500_000)
+			}
+		}
+		// every other two-peer configuration: breadth-first up to the cap
+		for _, cl := range [][]bool{{N, N}, {F, N}, {F, F}} {
+			for _, w := range ws3 {
+				if !cl[0] && w.ns == 0 {
+					continue
+				}
+				for _, m := range modes(l3a, l3b, false) {
+					for md := 1; md <= 2; md++ {
+						add(cl, m.l, w, m.seq, md, 120_000)
+					}
+				}
+			}
+		}
+	} else {
+		ws3 := []wsCombo{{0, 0}, {1, 0}, {1, 2}, {1, 3}, {2, 0}, {2, 2}, {2, 3}}
+		ws4 := []wsCombo{{0, 0}, {1, 0}, {1, 2}, {1, 4}, {2, 0}, {2, 2}, {2, 4}}
+		for _, cl := range [][]bool{{N}, {F}} {
+			for _, w := range ws3 {
+				for _, m := range modes(l3a, l3b, true) {
+					add(cl, m.l, w, m.seq, 2, 8_000_000)
+				}
+			}
+			for _, w := range ws4 {
+				for _, m := range modes(l4a, l4b, true) {
+					add(cl, m.l, w, m.seq, 2, 4_000_000)
+				}
+			}
+		}
+		for _, m := range modes(l3a, l3b, true) {
+			for md := 1; md <= 2; md++ {
+				add([]bool{N, N}, m.l, wsCombo{0, 0}, m.seq, md, 8_000_000) // fix
+			}
+		}
+		for _, m := range modes(l3a, l3b, false) {
+			add([]bool{N, N}, m.l, wsCombo{1, 0}, m.seq, 2, 14_000_000) // fix (11.4 M states in rarest mode)
+			add([]bool{N, N}, m.l, wsCombo{1, 3}, m.seq, 2, 14_000_000)
+			add([]bool{F, N}, m.l, wsCombo{0, 0}, m.seq, 2, 8_000_000)
+		}
+		for _, m := range modes(l4a, l4b, false) {
+			add([]bool{N, N}, m.l, wsCombo{0, 0}, m.seq, 2, 8_000_000)
+		}
+		for _, cl := range [][]bool{{N, N}, {F, N}, {F, F}} {
+			for _, w := range ws3 {
+				for _, m := range modes(l3a, l3b, false) {
+					for md := 1; md <= 2; md++ {
+						dup := false
+						for _, c := range cs {
+							if len(c.Fast) == 2 && c.Fast[0] == cl[0] && c.Fast[1] == cl[1] && c.NPieces == 3 && c.Files == m.l && c.NSrc == w.ns && c.WsMax == w.wsMax && c.Seq == m.seq && c.MaxDup == md {
+								dup = true
+							}
 						}
-						for _, l := range ls {
-							wsMaxes := []int{0}
-							if ns > 0 {
-								wsMaxes = []int{0, n}
-								if thorough {
-									wsMaxes = []int{0, 2, n}
-								}
-							}
-							for _, wm := range wsMaxes {
-								for md := 1; md <= 2; md++ {
-									cs = append(cs, &config{Fast: cl, NPieces: n, Files: l, NSrc: ns, Seq: seq, MaxDup: md, WsMax: wm})
-								}
-							}
+						if !dup {
+							add(cl, m.l, w, m.seq, md, 400_000)
 						}
 					}
 				}
 			}
 		}
-	}
-	if !thorough {
-		// quick tier: sequential order needs >= 2 interior pieces to be non-trivial: one 4-piece family, small swarm
-		for _, cl := range classes(1) {
-			for ns := 0; ns <= 1; ns++ {
-				for md := 1; md <= 2; md++ {
-					cs = append(cs, &config{Fast: cl, NPieces: 4, Files: [2]int64{56, 8}, NSrc: ns, Seq: true, MaxDup: md, WsMax: 2 * ns})
+		// three peers: end-game limit 2 can only be exceeded here
+		for _, cl := range [][]bool{{N, N, N}, {F, N, N}} {
+			for _, w := range []wsCombo{{0, 0}, {1, 3}} {
+				for _, m := range modes(l3a, l3b, false) {
+					for md := 1; md <= 2; md++ {
+						add(cl, m.l, w, m.seq, md, 1_000_000)
+					}
 				}
 			}
 		}
 	}
-	// simplest first (first violation per key should be the simplest case)
+	// simplest first (the first violation per key should be the simplest case)
 	sort.SliceStable(cs, func(a, b int) bool {
 		wa := len(cs[a].Fast)*100 + cs[a].NPieces*10 + cs[a].NSrc
 		wb := len(cs[b].Fast)*100 + cs[b].NPieces*10 + cs[b].NSrc
@@ -521,12 +590,9 @@ func TestC09(t *testing.T) {
 		}
 		cfgs = sel
 	}
-	maxStates := int64(1_500_000)
-	if thorough {
-		maxStates = 12_000_000
-	}
+	var capOverride int64
 	if v, err := strconv.ParseInt(os.Getenv("VERIF_C09_MAXSTATES"), 10, 64); err == nil && v > 0 {
-		maxStates = v
+		capOverride = v
 	}
 	par := core.Parallelism()
 	seen := map[string]bool{}
@@ -545,6 +611,10 @@ func TestC09(t *testing.T) {
 	verbose := os.Getenv("VERIF_C09_VERBOSE") != ""
 	for _, c := range cfgs {
 		e := &explorer{c: c, rep: rep, seen: seen, seenMu: &mu}
+		maxStates := c.Cap
+		if capOverride > 0 {
+			maxStates = capOverride
+		}
 		r := e.run(maxStates, par)
 		rep.States += r.states
 		rep.Transitions += r.transitions
